@@ -315,7 +315,8 @@ static void rowops_step(mzd_t *A) {
     if (vh_randint(0, 3) == 0 && n - y >= 64) nb = 64;
     word v = vh_rand();
     if (nb < 64) v &= (((word)1 << nb) - 1);
-    const char *nm = op == 10 ? "xor_bits" : op == 11 ? "clear_bits" : op == 12 ? "read_bits" : "read_bits_int";
+    int andv = (op == 10 && vh_randint(0, 2) == 0);   /* a third of the xor cases exercise mzd_and_bits instead */
+    const char *nm = andv ? "and_bits" : op == 10 ? "xor_bits" : op == 11 ? "clear_bits" : op == 12 ? "read_bits" : "read_bits_int";
     if (op == 13 && nb > 30) nb = vh_randint(1, (n - y) < 30 ? (n - y) : 30);
     vh_begin(&e, nm); vh_pi(&e, "x", x); vh_pi(&e, "y", y); vh_pi(&e, "n", nb);
     long vl = 0;
@@ -323,7 +324,8 @@ static void rowops_step(mzd_t *A) {
     vh_opnd(&e, "A", (op >= 12) ? 'i' : 'b', A); vh_pre(&e);
     word got = 0;
     if (VH_CALL(&e)) {
-      if (op == 10) mzd_xor_bits(A, x, y, nb, v);
+      if (andv) mzd_and_bits(A, x, y, nb, v << (64 - nb));   /* mzd_and_bits takes the values in the HIGH n bits of the word */
+      else if (op == 10) mzd_xor_bits(A, x, y, nb, v);
       else if (op == 11) mzd_clear_bits(A, x, y, nb);
       else if (op == 12) got = mzd_read_bits(A, x, y, nb);
       else got = (word)(unsigned)mzd_read_bits_int(A, x, y, nb);
